@@ -258,9 +258,11 @@ def exec_step(ctx, step, host=None):
             rec["result"] = C.canon(res)
         if spec.model is not None and ctx.mode == "history":
             try:
-                m = spec.model(ctx, a, res, rec)
+                with model_sandbox():
+                    m = spec.model(ctx, a, res, rec)
             except Exception as e:          # a crashing model is a harness problem, never a violation
-                m = ["harness-error", f"{type(e).__name__}: {e}"]
+                import traceback
+                m = ["harness-error", f"{type(e).__name__}: {e} {traceback.format_exc()[-600:]}"]
             if m:
                 rec["model"] = m
     if seam.nested:
@@ -272,6 +274,26 @@ def exec_step(ctx, step, host=None):
         rec["o2"] = o2
     ctx.records.append(rec)
     return rec
+
+
+class model_sandbox:
+    """the reference model may build drawings of its own; it must not see (or add to) a `with Schematic()`
+    block that a simulated client has open, so it runs on an empty schemdraw drawing stack"""
+
+    def __enter__(self):
+        self.ds = sys.modules.get("schemdraw.drawing_stack")
+        if self.ds is not None:
+            self.saved = dict(self.ds.drawing_stack)
+            self.pause = self.ds.pause
+            self.ds.drawing_stack.clear()
+            self.ds.pause = False
+
+    def __exit__(self, *exc):
+        if self.ds is not None:
+            self.ds.drawing_stack.clear()
+            self.ds.drawing_stack.update(self.saved)
+            self.ds.pause = self.pause
+        return False
 
 
 def run_history(plan):
